@@ -215,7 +215,10 @@ pub fn run(ctx: &mut Ctx) {
     // replays always run unsteered.
     let avoid = ctx.avoid(SIG_G) && ctx.is_generate();
     let run_case = move |h: &History| run_case_with(h, avoid);
-    ctx.campaign("histories", CampaignCfg::new(t.pick(60_000, 1_000_000)).shards(16), || history_strategy(30, true, 3, false), run_case);
-    ctx.campaign("long-histories", CampaignCfg::new(t.pick(8_000, 150_000)).shards(16), || history_strategy(90, true, 4, false), run_case);
-    ctx.campaign("general-transport", CampaignCfg::new(t.pick(30_000, 400_000)).shards(16), || history_strategy(30, false, 2, true), run_case);
+    ctx.campaign("histories", CampaignCfg::new(t.pick(60_000, 6_000_000)).shards(16), || history_strategy(30, true, 3, false), run_case);
+    ctx.campaign("long-histories", CampaignCfg::new(t.pick(8_000, 900_000)).shards(16), || history_strategy(90, true, 4, false), run_case);
+    // every history of up to 4 (quick) / 5 (thorough) operations over the small alphabet
+    let depth = t.pick(4u32, 5);
+    ctx.enumerate_indexed("small-scope-exhaustive", crate::f3::small_space_size(depth), 16, crate::f3::small_history, run_case);
+    ctx.campaign("general-transport", CampaignCfg::new(t.pick(30_000, 2_400_000)).shards(16), || history_strategy(30, false, 2, true), run_case);
 }
